@@ -264,7 +264,7 @@ CHECKS["C04"] = dict(
          "the handshaking state hands ssl_wants to the sub-socket; every OpenSSL I/O site passes its result to process_ssl_event; (R7) connect() is issued only "
          "with the descriptor registered for EPOLLOUT, EINPROGRESS and a delayed track arm a timer; (R8) the resolver's entry points end in update_xpoll and a "
          "finished query arms a zero timer; (R9) the blocking forms poll the socket's own descriptor for POLLIN after await(). (R10) the btls connection update helper is folded exactly over its 48 ready-state inputs (awaited condition x direction of the last incomplete OpenSSL call x what it wanted x SSL_has_pending): every row rings the bell or stores and updates the sub-socket's condition, decrypted bytes ring when RECEIVABLE is awaited, an awaited direction OpenSSL was not asked about is watched on the sub-socket; (R11) send/receive/finish of btcp and btls call the state-advancing helper before the first test of the connection state. Not decided: boundedness in "
-         "time; what OpenSSL does with a wake-up (trusted). (R3 also) the value handed to the sub-socket is built from the socket's own condition and only or-ed afterwards; (R12) clock_gettime in the timer's time source uses the clock the timerfd was created on. (R13) the descriptors and timers of a connection attempt are registered in the epoll set of the socket that started it.",
+         "time; what OpenSSL does with a wake-up (trusted). (R3 also) the value handed to the sub-socket is built from the socket's own condition and only or-ed afterwards; (R12) clock_gettime in the timer's time source uses the clock the timerfd was created on. (R13) the function that starts the connect attempts polls their outcome (or fails the connection) on every path before it returns: attempts that fail at once leave no wake-up source.",
     note=TRUSTED,
     technique="must-follow / must-pass path rules with inlining + switch-case typestate + control dependence + constant-flag checks",
     design="3/C04")
